@@ -12,13 +12,13 @@ CHECKS = {
          "All-histories refinement theorems (C01.refines, sorted, count_eq, remove_absent/present, traversals, clone) about an executable model that mirrors avl.go line by line; tied to /repo on every run by differential execution of random and exhaustive small histories through harness and compiled Lean driver (observational tie: results, walks, three-traversal predicate).",
          "§8 C01"),
  "C02": ("invariant proof (Lean 4): AVL balance + cached heights preserved by add/remove/popLeftMost for all histories; Fibonacci size bound; regenerated kernels",
-         "C02.rebalance_spec/add_avl/remove_avl/all_histories prove the AVL invariant (true heights differ by <= 1, cached heights exact) for every history; C02.fib and depth_log_int (2^(84h) <= (n+2)^121, i.e. 1.44048 log2(n+2)) give the depth bound; C02.cost bounds comparator calls by height+1. Tie: exact shape (with cached heights, via verif hook) and exact comparator-call counts compared with the model after every operation, plus kernels (nil height, balance thresholds, calcHeight, rebalance guards) regenerated from the Go AST every run and proved equal to the model's (C02.gen_*).",
+         "C02.rebalance_spec/add_avl/remove_avl/all_histories prove the AVL invariant (true heights differ by <= 1, cached heights exact) for every history; C02.fib, depth_log_int (2^(84h) <= (n+2)^121) and depth_log ((height : R) <= 1.4405 * logb 2 (n+2); Props/C02Real.lean, the only Mathlib-importing module) give the depth bound; C02.cost bounds comparator calls by height+1. Tie: exact shape (with cached heights, via verif hook) and exact comparator-call counts compared with the model after every operation, plus kernels (nil height, balance thresholds, calcHeight, rebalance guards) regenerated from the Go AST every run and proved equal to the model's (C02.gen_*).",
          "§8 C02"),
  "C03": ("refinement proof (Lean 4): both Set implementations (map-backed, sync2.Map-backed) refine finite-set algebra; correspondence incl. internal layout",
          "C03.union/intersect/setdiff/symdiff/operands_unchanged/add/remove/addSet_count/removeSet_count/range/len/clone/from*/cartesian proved for any pairing of implementations and any reachable internal layout of the concurrent set (C03.sync_reachable_inv). Tie: programs over mixed handles incl. self-aliased calls, layouts aged and observed via the verif hook.",
          "§8 C03"),
  "C04": ("refinement proofs (Lean 4): (seq) the read/dirty/expunged state machine refines a map for all call sequences; (conc) forward simulation of the step-level transition system of map.go (one step = one atomic action; any number of goroutines) into a relaxed atomic map whose histories are proved linearizable => linearizability for ALL schedules; Range theorems for all schedules; real step traces replayed label for label in that transition system; atomic sites + hooks regenerated from the source",
-         "C04.conc_linearizable (every execution of the step-level model Model.SyncMapConc - 41 program points = the atomic sites of map.go, any number of goroutines, any operations, every interleaving - has a linearizable Load/Store/LoadOrStore/LoadAndDelete/Delete history), conc_sim_step, conc_inv, conc_no_nil_map_write, conc_lock_exclusive, conc_structure, conc_spec_is_seq_spec; Range under all schedules: conc_range_once (at most once per key), conc_range_value (the value passed for k is k's abstract value at that moment of the call), conc_range_skip, conc_range_snapshot (every key present when the loop starts is in the snapshot), conc_range_todo_held; sequential half: seq_inv/seq_step/seq_refines/seq_abs/range_seq/range_prefix. Tie: (1) step-level traces of the real code under the controlled scheduler (every schedule with <= 2 preemptions of a program catalogue, random programs/schedules; ~900k lines quick, >10M thorough) replayed in Model.SyncMapConc by the judge C04conc (same hook label, step enabled, announced loop key available, equal result); (2) the same executions and native runs judged for the property itself (linearizable + Range predicate) by ObjLin; (3) gen_all_atomic_sites_hooked / gen_sites_are_the_models / model_labels_are_sites about Gen.MapHooks regenerated from map.go on every run; (4) sequential histories with the internal layout compared after every call; (5) the simulation relation evaluated along random runs of the model (C04inv).",
+         "C04.conc_linearizable (every execution of the step-level model Model.SyncMapConc - 41 program points = the atomic sites of map.go, any number of goroutines, any operations, every interleaving - has a linearizable Load/Store/LoadOrStore/LoadAndDelete/Delete history), conc_sim_step, conc_inv, conc_no_nil_map_write, conc_lock_exclusive, conc_structure, conc_spec_is_seq_spec; Range under all schedules: conc_range_once (at most once per key), conc_range_value (the value passed for k is k's abstract value at that moment of the call), conc_range_skip, conc_range_snapshot (every key present when the loop starts is in the snapshot), conc_range_todo_held; sequential half: seq_inv/seq_step/seq_refines/seq_abs/range_seq/range_prefix. Tie: (1) step-level traces of the real code under the controlled scheduler (every schedule with <= 2 preemptions of a program catalogue, random programs/schedules; ~900k lines quick, >10M thorough) replayed in Model.SyncMapConc by the judge C04conc (same hook label, step enabled, announced loop key available, equal result); (2) the same executions and native runs judged for the property itself (linearizable + Range predicate) by ObjLin; (3) gen_all_atomic_sites_hooked / gen_sites_are_the_models / model_labels_are_sites about Gen.MapHooks regenerated from map.go on every run; (4) sequential histories with the internal layout compared after every call; (5) the simulation relation evaluated along random runs of the model (C04inv); (6) acceptance is theorem-backed: the judge's map-mode replay is the pure function Model.SyncMapTrace.replay, C04.trace_accept_sound / judge_accept_sound (an accepted trace IS an execution of the model) and accepted_trace_linearizable (hence its API history is linearizable); (7) gen_race_discipline: static lock/atomic discipline of map.go regenerated from the source.",
          '§8 C04, Appendix F.1'),
  "C06": ("refinement proof (Lean 4): pointer-level heap models of list.go / ring.go refine sequence / cycle-partition specs; three-way correspondence with container/list, container/ring",
          "C06.list_refines (all op sequences, under NoInitOnNonEmpty), C06.ring_refines (all op sequences, same-ring Link included), list_wf/ring_wf. Tie: the fork, the standard library and the Lean model+spec run in lock-step on the same histories; a fork-vs-stdlib difference is the counterexample verbatim.",
@@ -53,9 +53,9 @@ CHECKS = {
  "C05": ("proofs (Lean 4): every concurrent execution of Add/Remove/Has (= the map calls set.go makes, on the step-level model of map.go) is linearizable to the set specification (corollary of C04.conc_linearizable through a proved specification homomorphism); alternation/counting at specification level; sequential refinement; step-trace acceptance; call shape of Set methods regenerated from the source",
          'C05.conc_linearizable (all schedules: the Add/Remove/Has history is Linearizable w.r.t. the set specification), conc_alternate (the linearization is a sequential set history in which, per value, successful Adds and Removes alternate starting with an Add and #okAdd - #okRemove in {0,1} = final membership), conc_add_add, conc_add_once, set_transfer, set_hom, calls_have_points, seq_is_srun; specification level: alternate/alternate_from/has_between; atomic_seq, seq_history; gen_add_is_one_loadOrStore/gen_remove_is_one_loadAndDelete/gen_has_is_one_load/gen_map_sites_hooked (regenerated from set.go / map.go every run). Tie: step-level traces of the real Set under the controlled scheduler replayed in Model.SyncMapConc (every Set call must be, label for label, the map call(s) set.go makes; AddSet/RemoveSet in either element order), the same executions and native runs judged for linearizability to the set specification.',
          '§8 C05, Appendix F'),
- "C09": ("invariant proofs (Lean 4) over a transition system of keyed mutexes on an atomic map: agreement on one mutex per key, mutual exclusion, readers-xor-writer, cross-key independence, try-lock; trace acceptance under a controlled scheduler",
-         "C09.agree/mutex/rw/independent/independent_los/independent_free/try/try_held/try_alone/clear_proviso_needed for all schedules, any number of goroutines. Tie: executions of the real KeyedMutex/KeyedRWMutex under the controlled scheduler (all schedules with <= 2 preemptions of a catalogue incl. the first-use race, plus random), API-level traces accepted by the Lean transition system and checked against the occupancy predicate.",
-         "§8 C09"),
+ "C09": ("invariant proofs (Lean 4), all schedules: (1) keyedmutex.go composed with the STEP-LEVEL transition system of the embedded sync2.Map (no atomic-map assumption): one mutex per key, mutual exclusion / readers-xor-writer per key, unlock releases what was locked, try-lock, cross-key independence; (2) the same over an atomic map; (3) one-mutex-per-key as a corollary of the map's linearizability; step-level and API-level trace acceptance",
+         "On the composition Model.KeyedMutexConc (every method = one LoadOrStore(key, fresh) on the step-level map model, then one action on the returned mutex; sync.Mutex/RWMutex by contract), for every reachable state, any number of goroutines, menus that never ClearKey the key under consideration: C09.conc_agree (all goroutines that obtained a mutex for k have the same one, the map's abstract value), conc_agree_distinct, conc_mutex (at most one writer-holder per key, no reader with a writer), conc_unlock_same (UnlockKey/RUnlockKey release exactly what LockKey/RLockKey acquired; no unlock of an unlocked mutex), conc_try, conc_independent, conc_map_result, conc_clear_proviso_needed. History level on the real map: C09.map_agree/map_one_mutex/map_first_stores. Over the atomic map (Model.KeyedMutex): C09.agree/mutex/rw/independent/try/... Tie: step-level traces of the real KeyedMutex/KeyedRWMutex under the controlled scheduler (all schedules with <= 2 preemptions of a catalogue incl. first-use races and cleared keys, random programs) replayed label for label in Model.KeyedMutexConc by the judge C09conc (whose steps are proved to be steps of the model: doStep_sound etc.), the same executions and native parallel runs (also under -race) judged for the keyed-lock specification.",
+         '§8 C09, Appendix F.7'),
  "C17": ("invariant proofs (Lean 4) over a transition system of sync.Once's algorithm + the OnceN wrappers: exactly once, same results, return after completion, for all schedules and any number of callers; event-trace acceptance",
          "C17.exactly_once/returned_implies_invoked_and_finished/same_results/after_completion(_ret)/fend_records/result_stable/spec_holds. Tie: native executions with gated functions, event traces (call/fstart/fend/ret) accepted by the Lean system and checked against the history predicate; race-detector runs as observation.",
          "§8 C17"),
@@ -71,7 +71,7 @@ CHECKS = {
 }
 LEVEL_NOTES = {
  "C05": "Proved: linearizability of Add/Remove/Has under every schedule (via C04's concurrent theorem), alternation and counts for the linearization, the specification-level statements, the sequential refinement. AddSet/RemoveSet/Len are not atomic as a whole: their counts are judged on real executions as sequences of element operations inside the call's interval (Len only sanity-bounded). Data races: race detector observation only. Zero-size value pointers share one identity (handled by the model switch zst).",
- "C09": "The map inside the keyed mutex is modelled as ATOMIC (MapAtomic). C04.conc_linearizable now proves the embedded sync2.Map linearizable under every schedule; replacing a linearizable object by its atomic specification in a client is the standard observational-refinement theorem (Filipovic-O'Hearn-Rinetzky-Yang), which is NOT formalised here. sync.Mutex/RWMutex by contract; 'never delays' proved as 'never disables'. ClearKey is outside the property whenever it overlaps (in real time) another call on its key or the key is held: the judge stops judging such a scenario.",
+ "C09": "Proved for all schedules on the composition with the step-level map model (no MapAtomic assumption) for keys that are never cleared; ClearKey is outside the property whenever it overlaps another call on its key or the key is held (the judge stops judging such a scenario; conc_clear_proviso_needed shows the proviso is necessary). sync.Mutex/RWMutex by contract (writer/reader sets; Go's writer-preference is not modelled in the composed model); 'never delays' proved as 'never disables'.",
  "C10": "Proved for all schedules: panic freedom without clones, exactness of Unsub/UnsubAll/WithOnly, exactly-once/in-order/complete/at-most-once/delivery-xor-timeout at the level of the delivery logs. Distinctness of pairs (count = 1), wait_complete and timeout_exclusive are under CloneDiscipline (they use the no-clone invariant). NOT proved: liveness ('eventually' for Pub/PubSlice; checked on quiescent real executions of the live family only). Known finding: clone-after-unsub panic. Go channels/select/timers/RWMutex/WaitGroup by contract.",
  "C17": "sync.Once is modelled by its algorithm (done flag + mutex); Go memory-model visibility of the result fields is trusted (follows from sync.Once's happens-before).",
  "C18": "atomic.Value and sync.Pool are modelled by contract; race freedom is a theorem about the model's plain-access sets tied to the source by regenerated facts, plus race-detector observation.",
